@@ -516,10 +516,17 @@ class Session:
             xr = min(finite, key=lambda v: v[1])[0]
         if not math.isfinite(self._fref(xr)):
             xr = x0
-        if self.cfg.get('kink'):
-            idx = self.names.index(self.cfg['names'][self.cfg['kink']['param']])
-            if float(xr[idx]) == float(self.cfg['kink']['at']):
-                xr = x0     # the statistics computed by estimate() need finite derivatives at the returned point
+        if self.cfg.get('kink') or self.cfg.get('cliff'):
+            # the statistics computed by estimate() need finite derivatives at the returned point
+            try:
+                o = self.oracle.calculate_likelihood_and_derivatives(np.array(xr, dtype=float), scaled=False,
+                                                                     hessian=True, bhhh=True)
+                ok = all(bool(np.all(np.isfinite(np.asarray(v, dtype=float))))
+                         for v in (o.function, o.gradient, o.hessian, o.bhhh))
+            except Exception:
+                ok = False
+            if not ok:
+                xr = x0
         return OptimizationResults(solution=np.array(xr), messages={'Algorithm': 'scripted'},
                                    convergence=True)
 
@@ -597,6 +604,15 @@ class Session:
             where, text = _classify_exception(e)
             if where == 'harness':
                 raise
+            if (self.cfg.get('cliff') or self.cfg.get('kink')) and 'infs or NaNs' in str(e):
+                # the statistics of the final point failed on non-finite second derivatives (cliff / kink
+                # workloads): outside C15; the file must still be complete
+                ctx.count('estimate_failed_on_nonfinite_statistics')
+                self.in_estimate = None
+                self.inflight = None
+                self.boot = False
+                self._settle(fname)
+                return None, info
             self.ctx.fail(f'{oracle}.raise', f'estimate raised {type(e).__name__}: {e}')
         finally:
             ie = self.in_estimate
